@@ -182,6 +182,9 @@ type AnalyzedFnParam struct {
 }
 
 func (self AnalyzedFnParam) String() string {
+	if self.IsSingletonExtractor {
+		return fmt.Sprintf("%s: %s", self.Ident, self.SingletonIdent)
+	}
 	return fmt.Sprintf("%s: %s", self.Ident, self.Type)
 }
 
